@@ -242,6 +242,91 @@ export function collisionFamily(maxK) {
   return out;
 }
 
+// Value routes: a constant of a dependency file reaches `typeof` in the entry file by every import/export route,
+// the dependency file is long (its offsets exceed every line of the entry file) and its expression refers to
+// constants that are local to it; `broken` variants put an expression beff cannot lower at the same place, so the
+// diagnostic must be located in the dependency file.
+export function valueRouteLayouts() {
+  const out = [];
+  const pad = "// " + "padding ".repeat(40) + "\n";
+  const locals = 'const kind = "x" as const;\nconst n = 1 as const;\n';
+  const exprs = {
+    object: { src: "{ kind, n, nested: { k: kind } }", good: '({"kind": "x", "n": 1, "nested": ({"k": "x"})})', bad: '({"kind": "entry", "n": 1, "nested": ({"k": "x"})})' },
+    array: { src: "[kind, n] as const", good: '["x", 1]', bad: '["entry", 1]' },
+    template: { src: "`${kind}-y` as const", good: '"x-y"', bad: '"entry-y"' },
+  };
+  const brokenExprs = { call: "{ v: foo(), kind }", regex: "{ v: /x/, kind }", unresolved: "{ v: missingName, kind }" };
+  const routes = {
+    "default-expression": (e) => ({ dep: `${pad}${locals}export default ${e};`, imp: 'import D from "./dep";', use: "typeof D" }),
+    "default-identifier": (e) => ({ dep: `${pad}${locals}const value = ${e};\nexport default value;`, imp: 'import D from "./dep";', use: "typeof D" }),
+    "named-const": (e) => ({ dep: `${pad}${locals}export const value = ${e};`, imp: 'import { value } from "./dep";', use: "typeof value" }),
+    "namespace-member": (e) => ({ dep: `${pad}${locals}export const value = ${e};`, imp: 'import * as Ns from "./dep";', use: "typeof Ns.value" }),
+    "export-star-barrel": (e) => ({ dep: `${pad}${locals}export const value = ${e};`, barrel: 'export * from "./dep";', imp: 'import { value } from "./barrel";', use: "typeof value" }),
+    "named-reexport": (e) => ({ dep: `${pad}${locals}export const value = ${e};`, barrel: 'export { value } from "./dep";', imp: 'import { value } from "./barrel";', use: "typeof value" }),
+    "renamed-reexport": (e) => ({ dep: `${pad}${locals}export const value = ${e};`, barrel: 'export { value as other } from "./dep";', imp: 'import { other } from "./barrel";', use: "typeof other" }),
+  };
+  for (const [rname, mk] of Object.entries(routes)) {
+    for (const [ename, e] of Object.entries(exprs))
+      for (const shadow of [false, true]) {
+        const r = mk(e.src);
+        // `shadow`: the entry file declares constants of the same names with other values
+        const entry = `${r.imp}\n${shadow ? 'const kind = "entry" as const;\nconst n = 2 as const;\n' : ""}export const Parsers = parse.buildParsers<{ A: ${r.use} }>();`;
+        const files = { "entry.ts": entry, "dep.ts": r.dep };
+        if (r.barrel) files["barrel.ts"] = r.barrel;
+        out.push({ name: `value-route:${rname}:${ename}${shadow ? ":shadowed" : ""}`, files, expect: { A: [[e.good, true], [e.bad, false]] }, keys: ["A"] });
+      }
+    for (const [bname, b] of Object.entries(brokenExprs)) {
+      const r = mk(b);
+      const files = { "entry.ts": `${r.imp}\nexport const Parsers = parse.buildParsers<{ A: ${r.use} }>();`, "dep.ts": r.dep };
+      if (r.barrel) files["barrel.ts"] = r.barrel;
+      out.push({ name: `value-route:${rname}:broken-${bname}`, files, expect: "diagnostic", diagnosticIn: "dep.ts", keys: ["A"] });
+    }
+  }
+  return out;
+}
+
+// Re-converging `export *` graphs: all.ts stars a.ts and b.ts, which star common.ts and/or extra.ts in every order;
+// the entry file takes types and values (typeof) of both leaf modules from "./all".
+export function starGraphLayouts() {
+  const out = [];
+  const lists = [["common"], ["extra"], ["common", "extra"], ["extra", "common"]];
+  for (const sa of lists)
+    for (const sb of lists)
+      for (const sall of [["a", "b"], ["b", "a"]]) {
+        const reach = new Set([...sa, ...sb]);
+        const names = [];
+        const entries = [];
+        const expect = {};
+        if (reach.has("common")) {
+          names.push("Id", "cid");
+          entries.push("I: Id", "CI: typeof cid");
+          expect.I = [['({"id": "s"})', true], ['({"x": 1})', false]];
+          expect.CI = [['"common"', true], ['"extra"', false]];
+        }
+        if (reach.has("extra")) {
+          names.push("Extra", "cextra");
+          entries.push("E: Extra", "CE: typeof cextra");
+          expect.E = [['({"x": 1})', true], ['({"id": "s"})', false]];
+          expect.CE = [['"extra"', true], ['"common"', false]];
+        }
+        const star = (l) => l.map((m) => `export * from "./${m}";`).join("\n");
+        out.push({
+          name: `star-graph:a(${sa.join(",")}):b(${sb.join(",")}):all(${sall.join(",")})`,
+          files: {
+            "entry.ts": `import { ${names.join(", ")} } from "./all";\nexport const Parsers = parse.buildParsers<{ ${entries.join(", ")} }>();`,
+            "all.ts": star(sall),
+            "a.ts": star(sa),
+            "b.ts": star(sb),
+            "common.ts": 'export type Id = { id: string };\nexport const cid = "common" as const;',
+            "extra.ts": 'export type Extra = { x: number };\nexport const cextra = "extra" as const;',
+          },
+          expect,
+          keys: Object.keys(expect),
+        });
+      }
+  return out;
+}
+
 // hand-written collision / unresolvable layouts
 function specialLayouts() {
   const out = [];
@@ -407,7 +492,7 @@ export async function run() {
             } else if (parsers[n].hash256() !== info[n].h) {
               const o2 = structKey(parsers[n], { sortMembers: false });
               const s2 = structKey(parsers[n], { sortMembers: true });
-              if (o2 !== info[n].ordered && s2 === info[n].sorted) rep.violation(`C09 member order: hash256 of a union/intersection of named types depends on the files they are declared in`, `parser ${n} of ${base.name} laid out in style ${job.styleName} has a different hash256: the members of a union/intersection of named types are ordered by file`, { ...detail, parser: n });
+              if (o2 !== info[n].ordered && s2 === info[n].sorted) rep.violation(`C09 member order: hash256 of a union/intersection of named types depends on the files they are declared in`, `parser ${n} of ${base.name} laid out in style ${job.styleName} has a different hash256: the members of a union/intersection of named types are ordered by file`, { ...detail, parser: n, type: `${base.name}.${n}` });
               else rep.violation(`C09 hash256 differs from the single-file program : ${base.name}.${n} : ${job.styleName}`, `parser ${n} of ${base.name} laid out in style ${job.styleName} has a different hash256`, { ...detail, parser: n });
             }
           }
@@ -418,11 +503,15 @@ export async function run() {
     // special layouts
     const collisions = collisionFamily(TIER === "thorough" ? 4 : 3);
     stats.collisionLayouts = collisions.length;
-    for (const sp of [...specialLayouts(), ...collisions]) {
+    for (const sp of [...specialLayouts(), ...collisions, ...valueRouteLayouts(), ...starGraphLayouts()]) {
       stats.special++;
       const r = classify(await pool_.request({ files: sp.files, settings: DEFAULT_SETTINGS }));
       const detail = { engine: "E-src", layout: sp.name, files: sp.files };
       if (sp.expect === "diagnostic") {
+        if (r.kind === "diag" && sp.diagnosticIn) {
+          const elsewhere = (r.diagnostics ?? []).filter((d) => d.KnownFile && d.KnownFile.file_name !== sp.diagnosticIn);
+          if (elsewhere.length) rep.violation(`C09 a diagnostic about one file's expression is located in another file : ${sp.name.split(":").slice(0, 2).join(":")}`, `layout ${sp.name}: the expression that cannot be lowered is in ${sp.diagnosticIn}, the diagnostic names ${elsewhere[0].KnownFile.file_name}: ${elsewhere[0].KnownFile.message}`, detail);
+        }
         if (r.kind === "code") rep.violation(`C09 unresolvable reference is bound to something : ${sp.name}`, `layout ${sp.name}: TypeScript cannot resolve the reference, beff emitted code instead of a diagnostic`, detail);
         else if (r.kind !== "diag") {
           if (r.kind !== "dead" && r.kind !== "panic") rep.violation(`C09 unresolvable reference: neither code nor diagnostic : ${sp.name}`, `layout ${sp.name}: ${r.kind}`, detail);
@@ -451,7 +540,7 @@ export async function run() {
     coverage: {
       evaluations: stats.evaluations,
       distinct_nontrivial: outcomes.size,
-      rule: "7 base programs (alias chain, generics, interface extends chain, enums, const/typeof, mutual recursion, discriminated variants) × every set partition of their declarations into <=3 blocks × {first block in the entry file | all blocks in dependency files} × 10 uniform import/export styles + a mixed per-edge assignment + .d.ts and .tsx file names" + (TIER === "thorough" ? "" : " (quick: seed-selected half of the layouts)") + "; oracle: no diagnostics, accept vectors over U(T) (default+strict) and hash256 equal to the single-file program; plus 4 hand-written collision layouts and the generated same-name family (the same type name, generic name and user name declared in k files, every k-subset (k = 2.." + (TIER === "thorough" ? 4 : 3) + ") of 8 paths whose directories share prefixes of different lengths; 4 parsers per file with generator-known expectations) and 9 unresolvable layouts that must give a diagnostic. distinct_nontrivial = base parsers with both verdicts",
+      rule: "7 base programs (alias chain, generics, interface extends chain, enums, const/typeof, mutual recursion, discriminated variants) × every set partition of their declarations into <=3 blocks × {first block in the entry file | all blocks in dependency files} × 10 uniform import/export styles + a mixed per-edge assignment + .d.ts and .tsx file names" + (TIER === "thorough" ? "" : " (quick: seed-selected half of the layouts)") + "; oracle: no diagnostics, accept vectors over U(T) (default+strict) and hash256 equal to the single-file program; plus 4 hand-written collision layouts and the generated same-name family (the same type name, generic name and user name declared in k files, every k-subset (k = 2.." + (TIER === "thorough" ? 4 : 3) + ") of 8 paths whose directories share prefixes of different lengths; 4 parsers per file with generator-known expectations) 63 value-route layouts (a constant of a long dependency file reaching typeof through 7 import/export routes × 3 expression forms × shadowing constants in the entry file, plus 3 expressions that cannot be lowered per route whose diagnostic must name the dependency file), 32 re-converging export-star graphs (types and values of two leaf modules through all.ts -> a.ts, b.ts in every star order), 24 namespace-as-value layouts and 9 unresolvable layouts that must give a diagnostic. distinct_nontrivial = base parsers with both verdicts",
       samples,
       exhaustive: TIER === "thorough",
       layouts_compiled: stats.layouts,
